@@ -213,7 +213,7 @@ pub fn run(op: &str, args: &[&str]) -> Option<String> {
                 return None;
             }
             let b = unhex(args[0])?;
-            Some(match deserialize_partial::<SubField>(&b) {
+            Some(match crate::ops_codec::dp::<SubField>(&b) {
                 Ok((f, n)) => format!("OK {} {}", n, sub_str(&f)),
                 Err(e) => crate::err_shown(&e),
             })
@@ -223,7 +223,7 @@ pub fn run(op: &str, args: &[&str]) -> Option<String> {
                 return None;
             }
             let b = unhex(args[0])?;
-            Some(match deserialize::<SubField>(&b) {
+            Some(match crate::ops_codec::ds::<SubField>(&b) {
                 Ok(f) => format!("OK {}", sub_str(&f)),
                 Err(e) => crate::err_shown(&e),
             })
@@ -243,11 +243,11 @@ pub fn run(op: &str, args: &[&str]) -> Option<String> {
                 Ok(b) => b,
                 Err(m) => return Some(m.to_string()),
             };
-            let back = match deserialize_partial::<SubField>(&bs) {
+            let back = match crate::ops_codec::dp::<SubField>(&bs) {
                 Ok((g, n)) => format!("{} {}", (sub_str(&g) == orig) as u8, n),
                 Err(e) => crate::err_shown(&e),
             };
-            let strict = match deserialize::<SubField>(&bs) {
+            let strict = match crate::ops_codec::ds::<SubField>(&bs) {
                 Ok(g) => format!("{}", (sub_str(&g) == orig) as u8),
                 Err(e) => crate::err_shown(&e),
             };
